@@ -8,8 +8,8 @@ def H(name, bounds="", reach=(), native=True, thorough_only=False, quick=None, t
             "nodiff": nodiff, "opts": opts or {}, "search": search or [], "must_reach": must_reach or [], "unreach_job": unreach_job}
 
 Q = {"budget": "150s", "timeout": 400}
-T = {"budget": "25m", "timeout": 3000}
-TC = {"budget": "40m", "timeout": 4000, "max-paths": 1500000}
+T = {"budget": "12m", "timeout": 1500, "max-paths": 600000}
+TC = {"budget": "20m", "timeout": 2400, "max-paths": 1500000}
 
 TSTATE_BOUNDS = "one checkOnce from a fresh T; property = any program of k<=3 (quick) / 4 (thorough) opcodes over {return, draw, Errorf, Fail, Fatalf, FailNow, panic(string), panic(error), nil dereference, Skip, Cleanup(sub), Context, Custom(sub)} with a 2-opcode sub-program for callbacks; buffer stream of 4 symbolic words"
 TSTATE_REACH = ["passed", "signalled", "skipped", "overrun"]
